@@ -112,10 +112,18 @@ def all_vars(case):
     return sorted(vs)
 
 
+def bound_fn(case):
+    per = case.get("period")
+    if not per:
+        return lambda k: str(k)
+    return (lambda k: str(2 * k)) if tuple(per) == (2, "s") else (lambda k: "%dms" % (500 * k))
+
+
 def spec_text(case):
+    bf = bound_fn(case)
     if case["asserts"]:
-        return "\n".join("%s = %s;" % (nm, F.to_text(b)) for nm, b in case["asserts"])
-    return "out = " + F.to_text(case["f"])
+        return "\n".join("%s = %s;" % (nm, F.to_text(b, bound=bf)) for nm, b in case["asserts"])
+    return "out = " + F.to_text(case["f"], bound=bf)
 
 
 def run_impl(case):
@@ -124,14 +132,15 @@ def run_impl(case):
     extra = [nm for nm, _ in case["asserts"][:-1]] if case["asserts"] else []
     data = {v: case["data"][v] for v in vs}
     struct = case.get("struct") or ()
-    on = impl.run_online_discrete(text, vs, data, case["n"], extra_decl=extra, struct=struct)
-    off = impl.eval_offline_discrete(text, vs, data, case["n"], extra_decl=extra, struct=struct)
+    kw = {"sampling": (case["period"][0], case["period"][1], 0.1)} if case.get("period") else {}
+    on = impl.run_online_discrete(text, vs, data, case["n"], extra_decl=extra, struct=struct, **kw)
+    off = impl.eval_offline_discrete(text, vs, data, case["n"], extra_decl=extra, struct=struct, **kw)
     return text, on, off
 
 
 def check_case(ctx, case, m_on, m_rho, m_gen=None):
     text, on, off = run_impl(case)
-    rep = {"struct": list(case.get("struct") or ()), "spec": text, "data": case["data"], "n": case["n"], "formula": F.to_proto(case["f"]),
+    rep = {"period": case.get("period"), "struct": list(case.get("struct") or ()), "spec": text, "data": case["data"], "n": case["n"], "formula": F.to_proto(case["f"]),
            "asserts": [[nm, F.to_proto(b)] for nm, b in case["asserts"]] if case["asserts"] else None,
            "monitor": "discrete online", "impl_online": on, "impl_offline": off, "model_online": m_on, "model_rho": m_rho}
     if on[0] != "ok":
@@ -187,6 +196,8 @@ def explore(ctx, rng, count):
         c["data"] = F.gen_trace(rng, all_vars(c) or ["a"], c["n"])
         # some variables are objects of a user-defined type read through a field (`a.value`)
         c["struct"] = sorted(v for v in (all_vars(c) or ["a"]) if rng.random() < 0.5) if rng.random() < 0.15 else []
+        # the same number of samples under another sampling period: bounds written as durations (2 s: [2k]; 500 ms: [500k ms])
+        c["period"] = rng.choice([(2, "s"), (500, "ms")]) if rng.random() < 0.15 else None
         if not disc.known_region(ctx, c, REGIONS):
             cases.append(c)
         else:
@@ -223,7 +234,7 @@ def explore(ctx, rng, count):
 
 def case_of_replay(obj):
     c = {"stream": "replay", "f": F.from_proto(obj["formula"]), "n": obj["n"],
-         "data": {k: [float(x) for x in v] for k, v in obj["data"].items()}, "asserts": None, "struct": obj.get("struct") or []}
+         "data": {k: [float(x) for x in v] for k, v in obj["data"].items()}, "asserts": None, "struct": obj.get("struct") or [], "period": obj.get("period")}
     if obj.get("asserts"):
         c["asserts"] = [(nm, F.from_proto(b)) for nm, b in obj["asserts"]]
     return c
@@ -330,7 +341,7 @@ def run(ctx):
             ctx.violations.append(Violation("corpus case fails: " + msg, obj, stream="corpus"))
     if ctx.violations:
         return
-    explore(ctx, ctx.subrng("on-d"), ctx.budget(600, 10000))
+    explore(ctx, ctx.subrng("on-d"), ctx.budget(1000, 12000))
     if not ctx.violations:
         units_stream(ctx, ctx.subrng("units"), ctx.budget(80, 800))
 
